@@ -429,9 +429,8 @@ class TBRMatchedMarkets:
       for d in design:
         treatment_geos = {self.data.geo_index[x] for x in d.treatment_geos}
         control_geos = {self.data.geo_index[x] for x in d.control_geos}
-        d.treatment_geos = treatment_geos
-        d.control_geos = control_geos
-        output_result.append(d)
+        output_result.append(
+            TBRMMDesign(d.score, treatment_geos, control_geos, d.diag))
 
     return output_result
 
